@@ -9,6 +9,9 @@ using A_qsd = frg::qs_domain<vmutex>;
 using A_qsa = frg::qs_agent<vmutex>;
 using A_qsn = frg::qs_node;
 using A_qlg = frg::lock_guard<vmutex>;
+using A_qsl = decltype(A_qsa::_pending);
+using A_qsh = frg::default_list_hook<frg::qs_node>;
+using A_qsli = A_qsl::iterator;
 }
 template struct frg::qs_domain<frgv::vmutex>;
 template struct frg::qs_agent<frgv::vmutex>;
